@@ -29,10 +29,10 @@ import (
 	"github.com/honeytrap/honeytrap/pushers"
 	"github.com/honeytrap/honeytrap/server"
 	"github.com/honeytrap/honeytrap/services/ftp"
-	"github.com/honeytrap/honeytrap/verifyield"
-	logging "github.com/op/go-logging"
 	"github.com/honeytrap/honeytrap/services/ipp"
 	"github.com/honeytrap/honeytrap/services/smtp"
+	"github.com/honeytrap/honeytrap/verifyield"
+	logging "github.com/op/go-logging"
 
 	"htsim/simnet"
 )
@@ -150,14 +150,14 @@ type ConnObs struct {
 	Actor        int
 	Kind         string
 	Refused      bool
-	Recv         []byte  // everything the client received, in order
-	Chunks       []Chunk // the same, by step
-	ServerClosed bool    // server side closed (TCP)
-	ClosedAtMs   int64   // simulated ms since run start when the server closed its side
-	ServerRead   int     // bytes the server side actually consumed
-	Sent         int     // bytes the script delivered
-	OpStep       []int   // scheduler step at which op i (first segment) was applied
-	OpDoneStep   []int   // step at which op i's last segment was applied
+	Recv         []byte   // everything the client received, in order
+	Chunks       []Chunk  // the same, by step
+	ServerClosed bool     // server side closed (TCP)
+	ClosedAtMs   int64    // simulated ms since run start when the server closed its side
+	ServerRead   int      // bytes the server side actually consumed
+	Sent         int      // bytes the script delivered
+	OpStep       []int    // scheduler step at which op i (first segment) was applied
+	OpDoneStep   []int    // step at which op i's last segment was applied
 	ConnectMs    int64    // simulated time of the connect
 	SegMs        []int64  // simulated time of every delivered segment
 	EndMs        int64    // simulated time of close/reset/halfclose by the client (0 = never)
@@ -198,8 +198,8 @@ type World struct {
 	StepCheck func(w *World) string
 	Abort     string
 	HT        *server.Honeytrap
-	TmpDir  string
-	PreBoot func(dir string)
+	TmpDir    string
+	PreBoot   func(dir string)
 	// SendHook lets an engine deliver the segments of "send" ops itself (returns true when it did)
 	SendHook func(actor int, seg []byte) bool
 	// Custom executes engine-specific op kinds (emit, frame, ...)
@@ -321,8 +321,8 @@ type cursor struct {
 	op, seg  int
 	groupEnd int
 	segs     [][]byte
-	conn    bool // connected (tcp)
-	done    bool
+	conn     bool // connected (tcp)
+	done     bool
 }
 
 // RunOpts tunes a run.
@@ -355,6 +355,7 @@ func RunScenario(t *testing.T, sc *Scenario, custom func(w *World)) (obs *Obs) {
 		// yield_hot > 0: "buggify" style - a random subset of the yield SITES is hot for this run (a goroutine
 		// reaching a hot site always gives way, at the others never); otherwise every site yields with yield_pct %.
 		hotPct := sc.ParamInt("yield_hot", 0)
+		yieldRounds := sc.ParamInt("yield_rounds", 1)
 		hot := map[uintptr]bool{}
 		verifyield.Hook = func() {
 			take := false
@@ -377,7 +378,12 @@ func RunScenario(t *testing.T, sc *Scenario, custom func(w *World)) (obs *Obs) {
 			}
 			if take {
 				obs.Yields++
-				runtimeGoyield()
+				// give way several times in a row: goroutines that only become runnable through what the others do
+				// meanwhile (the listener hands the next datagram to the accept loop, which starts the next handler)
+				// get their turn too before this one goes on
+				for i := 0; i < yieldRounds; i++ {
+					runtimeGoyield()
+				}
 			}
 		}
 	}
